@@ -43,6 +43,7 @@ type SpecEnv struct {
 	inOld bool
 	ctxDone map[string]T
 	calleeFn *ssa.Function // when evaluating a callee's contract at a call site
+	typeSubst map[string]types.Type // callee type parameters -> the call's type arguments
 	calleeGhost map[string]T // callee-activation ghost state (counters, recorded args) as existential constants
 }
 
@@ -601,6 +602,11 @@ func (u *Unit) resolveType(env *SpecEnv, e ast.Expr) types.Type {
 			return types.NewPointer(t)
 		}
 	case *ast.Ident:
+		if env != nil && env.typeSubst != nil {
+			if t, ok := env.typeSubst[x.Name]; ok {
+				return t
+			}
+		}
 		fn := u.fn
 		for fn != nil {
 			tps := fn.TypeParams()
@@ -858,6 +864,27 @@ func (u *Unit) evalCall(env *SpecEnv, x *ast.CallExpr) SV {
 			}
 		}
 		return SV{V: u.fresh("nores", srt)}
+	case "boxOf":
+		// boxOf(TYPE, v): the interface value holding v with dynamic type TYPE
+		t := u.resolveType(env, x.Args[0])
+		if t == nil {
+			return env.fail("boxOf: unknown type")
+		}
+		return SV{V: u.makeInterface(env.st, argT(1), t), Typ: types.Universe.Lookup("any").Type()}
+	case "unjsonOf", "unjsonOKOf":
+		// unjsonOf(TYPE, data): the value json.Unmarshal stores for that target type
+		t := u.resolveType(env, x.Args[0])
+		if t == nil {
+			return env.fail("%s: unknown type", name)
+		}
+		data := argT(1)
+		if name == "unjsonOKOf" {
+			return SV{V: u.ghost("unjsonOK", SBool, u.typeID(t), data), Typ: boolT}
+		}
+		srt := u.sortOf(t)
+		fn := "unjson!" + smtName(string(srt))
+		u.decls.Add(fn, fmt.Sprintf("(declare-fun %s (Int String) %s)", fn, srt))
+		return SV{V: app(srt, fn, u.typeID(t), data), Typ: t}
 	case "lastresi":
 		// lastresi(ev, i, Sort): component i of the (tuple) result of the last call
 		id, _ := x.Args[0].(*ast.Ident)
